@@ -80,9 +80,9 @@ def do_twin(sim, rec):
         src.tainted = True
     if was_frozen:
         w.probes["twin_of_frozen:" + how] += 1
-    if getattr(src, "sc_dirty", False):
-        # the source is a complex whose closure was interrupted by a raising call: a rebuild
-        # re-closes it; the twin is adopted as it is
+    if getattr(src, "sc_dirty", False) or (src.kind == "SC" and not src.model.is_closed()):
+        # the source is a complex whose closure was interrupted by a raising call (or that an
+        # inherited Hypergraph mutator left unclosed): a rebuild re-closes it; the twin is adopted
         act.model = M.model_from_snapshot(act.kind, act.snap)
         # copy() and the constructor rebuild (and thereby re-close) the complex; a pickle round
         # trip reproduces it as it is, incomplete closure included
